@@ -621,9 +621,10 @@ fn relay_job(kind: Relay, script_len: usize, len: usize, devs: u32) -> Job {
 }
 
 /// from_stream over a stream that has `n` items ready at once
-fn burst_job(n: usize) -> Job {
-  let pipe = Pipe::S(Src::StreamCount(n));
-  Job::new(format!("from_stream burst of {n} ready items"), move |_ch, obs| {
+fn burst_job(n: usize, result_twin: bool) -> Job {
+  let pipe = Pipe::S(if result_twin { Src::StreamResultCount(n) } else { Src::StreamCount(n) });
+  let twin = if result_twin { "_result" } else { "" };
+  Job::new(format!("from_stream{twin} burst of {n} ready items"), move |_ch, obs| {
     let mut r = Run::start(&pipe, Form::Local);
     r.drain();
     for _ in 0..3 {
@@ -635,9 +636,9 @@ fn burst_job(n: usize) -> Job {
     exp.push(Note::C);
     if got != exp {
       obs.fail(
-        "c08:relay-incomplete:FromStream",
+        if result_twin { "c08:relay-incomplete:FromStreamResult" } else { "c08:relay-incomplete:FromStream" },
         format!(
-          "a stream with {n} ready items: nothing left to run, {} notifications relayed, last {:?}",
+          "from_stream{twin} over a stream with {n} ready items: nothing left to run, {} notifications relayed, last {:?}",
           got.len(),
           got.last()
         ),
@@ -685,8 +686,9 @@ pub fn plan(tier: Tier) -> Plan {
       jobs.push(sated_timer_job(src.clone(), k));
     }
   }
-  for n in [31usize, 32, 33, 100] {
-    jobs.push(burst_job(n));
+  for n in [31usize, 32, 33, 63, 64, 65, 100, 127, 128, 129, 255, 256, 257, 1000, 1025, 4097] {
+    jobs.push(burst_job(n, false));
+    jobs.push(burst_job(n, true));
   }
   Plan {
     jobs,
